@@ -861,6 +861,7 @@ qb_log_init(const char *name, int32_t facility, uint8_t priority)
 		conf[i].debug = QB_FALSE;
 		conf[i].file_sync = QB_FALSE;
 		conf[i].extended = QB_TRUE;
+		conf[i].threaded = QB_FALSE;
 		conf[i].state = QB_LOG_STATE_UNUSED;
 		(void)strlcpy(conf[i].name, name, PATH_MAX);
 		conf[i].facility = facility;
@@ -928,6 +929,8 @@ qb_log_target_alloc(void)
 	enum qb_log_target_slot i;
 	for (i = QB_LOG_TARGET_START; i < QB_LOG_TARGET_MAX; i++) {
 		if (conf[i].state == QB_LOG_STATE_UNUSED) {
+			/* a new target, whatever used the slot before */
+			conf[i].threaded = QB_FALSE;
 			_log_target_state_set(&conf[i], QB_LOG_STATE_DISABLED);
 			return &conf[i];
 		}
